@@ -52,6 +52,8 @@ SCENARIOS = [
     ('named-columns-header-2', 'select a.v, a["k"], NR where a.w != "z"', False, ['v', 'w', 'k']),
     ('named-update-except-header-1', 'update a.v = a.k + "!"', False, ['k', 'v', 'w']),
     ('named-update-except-header-2', 'update a.v = a.k + "!"', False, ['w', 'k', 'v']),
+    # a dictionary-style field the (header-less) table does not provide: must fail the same way whatever ran before
+    ('missing-dictionary-field', 'select a["k"], a["v"], NR', False),
 ]
 
 
